@@ -616,6 +616,24 @@ func (g *generator) body(p *gpkg, vars []scopeVar, extra []string, n int) []stri
 			stmts = append(stmts, "", "// plain comment")
 		}
 	}
+	if g.o.Ignores {
+		// statements that come with an @ignore of exactly one code (a reported call nested in a suppressed one, and the
+		// other way round): half of them in every body that can see them
+		for _, s := range extra {
+			if !strings.HasPrefix(s, "¤") || strings.Contains(s, "\n") || !r.Bool() {
+				continue
+			}
+			k := strings.Index(s[len("¤"):], "¤")
+			code, st := s[len("¤"):len("¤")+k], s[2*len("¤")+k:]
+			tag := g.nextTag()
+			st = strings.ReplaceAll(st, "§", g.local(fmt.Sprint(g.tag)))
+			if r.Bool() {
+				stmts = append(stmts, "// @ignore "+code, st+" "+tag)
+			} else {
+				stmts = append(stmts, st+" "+tag+" // @ignore "+code)
+			}
+		}
+	}
 	return stmts
 }
 
